@@ -19,6 +19,8 @@ type pathStep struct {
 }
 
 type locSpec struct {
+	mapRef Term        // whole Go map (content and domain) at this reference
+	mapTy  *types.Map
 	ghost  string // state name of a ghost variable (whole)
 	ref    Term   // single leaf
 	ti     *typeInfo
@@ -124,44 +126,32 @@ func (vc *VC) evalLoc(e SExpr, env *Env) []locSpec {
 			out = append(out, locSpec{ref: r, ti: ti, lt: lt, text: text})
 		})
 	}
+	// package-level variable
+	if name, ok := dottedName(e); ok {
+		pkg := env.pkg
+		vn := name
+		if i := strings.LastIndex(name, "."); i >= 0 {
+			if p := vc.findPackage(name[:i], env.pkg); p != nil {
+				pkg, vn = p, name[i+1:]
+			}
+		}
+		if pkg != nil {
+			if _, isBound := env.bound[vn]; !isBound {
+				if sp := vc.prog.SSA.Package(pkg); sp != nil {
+					if g := sp.Var(vn); g != nil {
+						if o, ok := pkg.Scope().Lookup(vn).(*types.Var); ok {
+							addCell(vc.globalRef(g), o.Type(), name)
+							return out
+						}
+					}
+				}
+			}
+		}
+	}
 	switch e := e.(type) {
-	case *SSelect:
-		base := vc.evalSpec(e.X, env)
-		if base.Ty == nil || base.Ty.Go == nil {
-			specFail("bad location %s", e)
-		}
-		pt, ok := base.Ty.Go.Underlying().(*types.Pointer)
-		if !ok {
-			specFail("location %s: base is not a pointer", e)
-		}
-		_, index := vc.lookupFieldAnyPkg(pt.Elem(), e.Sel)
-		if index == nil {
-			specFail("location %s: no such field", e)
-		}
-		ref := base.T
-		t := pt.Elem()
-		for _, fi := range index {
-			ti := vc.info(t)
-			if ti.kind != "struct" {
-				specFail("location %s: embedded pointer not supported", e)
-			}
-			ref = vc.fld(ref, fi)
-			t = ti.st.Field(fi).Type()
-		}
+	case *SSelect, *SIndex:
+		ref, t := vc.lvalue(e, env)
 		addCell(ref, t, e.String())
-	case *SIndex:
-		base := vc.evalSpec(e.X, env)
-		i := vc.toIdx(vc.materialize(vc.evalSpec(e.I, env), goTy(types.Typ[types.Int])))
-		switch u := base.Ty.Go.Underlying().(type) {
-		case *types.Slice:
-			addCell(vc.elem(vc.sliceArr(base.T), vc.add(vc.sliceOff(base.T), i)), u.Elem(), e.String())
-		case *types.Pointer:
-			if a, ok := u.Elem().Underlying().(*types.Array); ok {
-				addCell(vc.elem(base.T, i), a.Elem(), e.String())
-			}
-		default:
-			specFail("bad indexed location %s", e)
-		}
 	case *SCall:
 		switch e.Fn {
 		case "all":
@@ -184,6 +174,20 @@ func (vc *VC) evalLoc(e SExpr, env *Env) []locSpec {
 			vc.leafPaths(sl.Elem(), nil, func(path []pathStep, ti *typeInfo, lt types.Type) {
 				out = append(out, locSpec{isRange: true, arr: vc.sliceArr(base.T), lo: off, hi: vc.add(off, vc.sliceCap(base.T)), path: path, ti: ti, lt: lt, text: e.String()})
 			})
+		case "mapof":
+			m := vc.evalSpec(e.Args[0], env)
+			mt, ok := m.Ty.Go.Underlying().(*types.Map)
+			if !ok {
+				specFail("mapof(m): m must be a Go map")
+			}
+			out = append(out, locSpec{mapRef: m.T, mapTy: mt, text: e.String()})
+		case "bytes":
+			// bytes(p, n): the n bytes starting at the byte pointer p (p points into a byte array)
+			p := vc.evalSpec(e.Args[0], env)
+			n := vc.toIdx(vc.materialize(vc.evalSpec(e.Args[1], env), goTy(types.Typ[types.Int])))
+			ref := vc.refOf(p)
+			lo := App(vc.idxSort(), "eidx", ref)
+			out = append(out, locSpec{isRange: true, arr: App(SRef, "ebase", ref), lo: lo, hi: vc.add(lo, n), ti: vc.info(types.Typ[types.Uint8]), lt: types.Typ[types.Uint8], text: e.String()})
 		case "deref":
 			base := vc.evalSpec(e.Args[0], env)
 			pt, ok := base.Ty.Go.Underlying().(*types.Pointer)
@@ -200,11 +204,97 @@ func (vc *VC) evalLoc(e SExpr, env *Env) []locSpec {
 	return out
 }
 
+// lvalue evaluates an addressable specification expression to (reference, type).
+func (vc *VC) lvalue(e SExpr, env *Env) (Term, types.Type) {
+	switch e := e.(type) {
+	case *SSelect:
+		// base may be a pointer value or itself an lvalue of struct type
+		var ref Term
+		var t types.Type
+		if r2, t2, ok := vc.tryLvalue(e.X, env); ok {
+			if _, isStruct := t2.Underlying().(*types.Struct); isStruct {
+				ref, t = r2, t2
+			}
+		}
+		if t == nil {
+			base := vc.evalSpec(e.X, env)
+			if base.Ty == nil || base.Ty.Go == nil {
+				specFail("bad location %s", e)
+			}
+			pt, ok := base.Ty.Go.Underlying().(*types.Pointer)
+			if !ok {
+				specFail("location %s: base is neither a pointer nor addressable", e)
+			}
+			ref, t = base.T, pt.Elem()
+		}
+		_, index := vc.lookupFieldAnyPkg(t, e.Sel)
+		if index == nil {
+			specFail("location %s: no such field", e)
+		}
+		for _, fi := range index {
+			ti := vc.info(t)
+			if ti.kind != "struct" {
+				specFail("location %s: embedded pointer not supported", e)
+			}
+			ref = vc.fld(ref, fi)
+			t = ti.st.Field(fi).Type()
+		}
+		return ref, t
+	case *SIndex:
+		i := vc.toIdx(vc.materialize(vc.evalSpec(e.I, env), goTy(types.Typ[types.Int])))
+		if r2, t2, ok := vc.tryLvalue(e.X, env); ok {
+			if a, isArr := t2.Underlying().(*types.Array); isArr {
+				return vc.elem(r2, i), a.Elem()
+			}
+		}
+		base := vc.evalSpec(e.X, env)
+		switch u := base.Ty.Go.Underlying().(type) {
+		case *types.Slice:
+			return vc.elem(vc.sliceArr(base.T), vc.add(vc.sliceOff(base.T), i)), u.Elem()
+		case *types.Pointer:
+			if a, ok := u.Elem().Underlying().(*types.Array); ok {
+				return vc.elem(base.T, i), a.Elem()
+			}
+		}
+		specFail("bad indexed location %s", e)
+	case *SCall:
+		if e.Fn == "deref" && len(e.Args) == 1 {
+			base := vc.evalSpec(e.Args[0], env)
+			pt, ok := base.Ty.Go.Underlying().(*types.Pointer)
+			if !ok {
+				specFail("deref(p): p must be a pointer")
+			}
+			return base.T, pt.Elem()
+		}
+	}
+	specFail("not addressable: %s", e)
+	return Term{}, nil
+}
+
+func (vc *VC) tryLvalue(e SExpr, env *Env) (ref Term, t types.Type, ok bool) {
+	switch e.(type) {
+	case *SSelect, *SIndex, *SCall:
+	default:
+		return Term{}, nil, false
+	}
+	defer func() {
+		if r := recover(); r != nil {
+			if _, isSpec := r.(specError); isSpec {
+				ok = false
+				return
+			}
+			panic(r)
+		}
+	}()
+	ref, t = vc.lvalue(e, env)
+	return ref, t, true
+}
+
 // inLocs: leaf cell r (in memory array memName) is covered by locs.
 func (vc *VC) inLocs(r Term, memName string, locs []locSpec) Term {
 	var alts []Term
 	for _, l := range locs {
-		if l.ghost != "" || vc.memName(l.ti) != memName {
+		if l.ghost != "" || l.mapTy != nil || vc.memName(l.ti) != memName {
 			continue
 		}
 		if l.isRange {
@@ -223,7 +313,7 @@ func (f *frame) frameCheck(addr Term, t types.Type, pos token.Pos, addrVal ssa.V
 		return
 	}
 	// syntactic shortcut: address derived from an allocation of the function under contract
-	if f == vc.topFrame && derivesFromAlloc(addrVal) {
+	if derivesFromAlloc(addrVal) {
 		return
 	}
 	fresh := App(SBool, ">=", vc.rootOf(addr), vc.topFrame.entryAlloc)
@@ -238,6 +328,22 @@ func (f *frame) frameCheck(addr Term, t types.Type, pos token.Pos, addrVal ssa.V
 	if vc.pass == 2 {
 		text := f.srcText(pos, "assign")
 		vc.addObligation("frame", text, vc.con.FrameProps, pos, f.reach, cond)
+	}
+}
+
+func (f *frame) frameCheckMap(m Term, pos token.Pos) {
+	vc := f.vc
+	if vc.con == nil || !vc.con.HasAssigns || vc.topFrame == nil {
+		return
+	}
+	alts := []Term{App(SBool, ">=", vc.rootOf(m), vc.topFrame.entryAlloc)}
+	for _, l := range vc.topLocs {
+		if l.mapTy != nil {
+			alts = append(alts, Eq(m, l.mapRef))
+		}
+	}
+	if vc.pass == 2 {
+		vc.addObligation("frame", f.srcText(pos, "assign"), vc.con.FrameProps, pos, f.reach, Or(alts...))
 	}
 }
 
@@ -693,6 +799,17 @@ func (f *frame) havocLocs(locs []locSpec, guard Term, pre State) {
 	ranged := map[string][]locSpec{}
 	for _, l := range locs {
 		switch {
+		case l.mapTy != nil:
+			c, d := vc.mapNames(l.mapTy)
+			for _, name := range []string{c, d} {
+				cur := f.cur.get(vc, name)
+				es := vc.stateSort[name]
+				// element sort of (Array Ref X) is X
+				inner := Sort(strings.TrimSuffix(strings.TrimPrefix(string(es), "(Array Ref "), ")"))
+				n := vc.freshConst("hm", inner)
+				f.cur[name] = vc.define(stateSym(name), Store(cur, l.mapRef, Ite(guard, n, Select(cur, l.mapRef, inner))))
+				f.recordMod(name)
+			}
 		case l.ghost != "":
 			n := vc.freshConst(stateSym(l.ghost), vc.stateSort[l.ghost])
 			f.cur[l.ghost] = vc.define(stateSym(l.ghost), Ite(guard, n, f.cur.get(vc, l.ghost)))
@@ -750,6 +867,10 @@ func (f *frame) unknownCall(name string, callee *ssa.Function, sig *types.Signat
 	vc := f.vc
 	vc.assumptions["A-EXT no contract for "+name+": arbitrary result, may write what its pointer arguments reach (by type), does not panic"] = true
 	vc.calleesUsed[name] = "no-contract"
+	if callee != nil && len(callee.Blocks) > 0 && callee.Pkg != nil && strings.HasPrefix(callee.Pkg.Pkg.Path(), modPath) {
+		// a repository function without a contract may write anything
+		f.havocAllMemory("call to repository function " + name + " which has no contract")
+	}
 	keys := map[string]bool{}
 	seen := map[string]bool{}
 	var walkT func(t types.Type, throughPtr bool)
